@@ -54,6 +54,33 @@ def nonfinite(v: Any) -> bool:
     return isinstance(v, float) and not isinstance(v, SymNum) and (v != v or v in (float("inf"), float("-inf")))
 
 
+def _float_twin(v: Any) -> Any:
+    if type(v) is SymNum or isinstance(v, SymNum):
+        return SymNum(v.z, False)
+    if isinstance(v, bool) or v is None:
+        return v
+    if isinstance(v, int):
+        try:
+            return float(v)
+        except OverflowError:
+            return v
+    return v
+
+
+def earlier_evaluation(tree: Any, context: Optional[Dict[str, Any]]) -> None:
+    """History: the same expression was evaluated before with float operands of (nearly) equal value - on a copy of the
+    tree, result and exceptions ignored.  Evaluation has no memory, so this must not change the evaluation under test."""
+    try:
+        twin = tree.clone()
+        for n in preorder(twin):
+            if kind(n) == "const":
+                n.value = _float_twin(n.value)
+        ctx2 = None if context is None else {k: _float_twin(v) for k, v in context.items()}
+        twin.evaluate(ctx2)
+    except Exception:
+        pass
+
+
 def evaluate_checked(tree: Any, context: Optional[Dict[str, Any]]):
     try:
         return "value", tree.evaluate(context)
@@ -79,6 +106,7 @@ def c05_symbolic(sk: Any, mode: str, ctx: Ctx):
         context = None
     missing = [n for n in names if states[n] != VALUE]
     with shims.installed():
+        earlier_evaluation(tree, context)
         out = evaluate_checked(tree, context)
     problems: List[Tuple[str, str]] = []
     asked = proved = 0
@@ -142,6 +170,23 @@ def c05_symbolic(sk: Any, mode: str, ctx: Ctx):
             if res == "cex":
                 problems.append(("nonfinite", f"evaluate returned {v} where the expression has a finite value"))
                 model = m
+            elif v == v and kind(tree) == "div":
+                # +-inf from a root division: "division by zero yields NaN" - an infinity is only right when an operand
+                # is itself non-finite (0 to a negative power), i.e. never where the divisor is defined and zero and the
+                # dividend is defined
+                rdom2: List[Any] = []
+                try:
+                    rz = zeval(tree.right, rdom2, ctx)
+                    zeval(tree.left, rdom2, ctx)
+                    r2, m2 = ctx.query(*(rdom2 + [rz == 0]))
+                    asked += 1
+                    if r2 == "sat":
+                        problems.append(("div-by-zero", f"division by zero returned {v} instead of NaN"))
+                        model = m2
+                    elif r2 == "unsat":
+                        proved += 1
+                except Undefined:
+                    pass
         else:
             lv = SymNum.lift(v)
             if lv is None:
@@ -182,6 +227,7 @@ def concrete_check(sk: Any, payloads: Dict[int, Any], states: Dict[str, int], va
         elif states[n] == NONE:
             context[n] = None
     missing = [n for n in names if states.get(n, VALUE) != VALUE]
+    earlier_evaluation(tree, context)
     out = evaluate_checked(tree, context)
     text = f"evaluate('{V.safe_str(tree)}', {context})"
     if missing:
@@ -217,6 +263,13 @@ def concrete_check(sk: Any, payloads: Dict[int, Any], states: Dict[str, int], va
     if isinstance(v, float) and (v != v or v in (float("inf"), float("-inf"))):
         if exact is not None and abs(float(exact)) < 1e300:
             return [("nonfinite", f"{text} returned {v}; exact value {exact}")]
+        if v == v and kind(tree) == "div":
+            try:
+                d, nume = ceval(tree.right, env), ceval(tree.left, env)
+            except Unsupported:
+                d = nume = None
+            if d is not None and nume is not None and d == 0:
+                return [("div-by-zero", f"{text} returned {v} for a zero divisor (NaN expected)")]
         return []
     if is_eq and sides_differ:
         return [("wrong-value", f"{text} returned {v} although the sides differ ({l} vs {r})")]
@@ -322,12 +375,22 @@ def run(tier: str) -> int:
     rep = Report("C05", tier)
     n = 4 if tier == "quick" else 5
     sks = list(enum_upto(n, unops=UNOPS, variables=("x", "y") if tier == "quick" else ("x",)))
+    if tier == "quick":
+        # 5-node quotients: a / (b op c) and (b op c) / a - the zero-divisor guard meets every operator's result type
+        lv = [("const", 0), ("var", "x")]
+        for op in ("add", "sub", "mul", "div", "pow"):
+            for b in lv:
+                for c in lv:
+                    for a in lv:
+                        sks.append(renumber(("div", a, (op, b, c))))
+                        sks.append(renumber(("div", (op, b, c), a)))
     eqs = [renumber(("eq", l, r)) for l in enum_upto(2, unops=UNOPS) for r in enum_upto(2 if tier == "quick" else 3, unops=UNOPS)]
     big = [renumber(b) for b in BIG]
     from ..trees import grid_text, use_grid
 
     use_grid("quick" if tier == "quick" else "full")
-    rep.bounds = {"trees": f"every tree with <= {n} nodes over const/x(/y), + - * / ^, neg sgn abs fact ({len(sks)}), "
+    rep.bounds = {"trees": f"every tree with <= {n} nodes over const/x(/y), + - * / ^, neg sgn abs fact, and every 5-node quotient "
+                           f"a / (b op c), (b op c) / a ({len(sks)}), "
                            f"{len(eqs)} equations, {len(big)} large-magnitude seeds (exponents 33..100, 25!, 10^30)",
                   "payloads": "unbounded reals/integers with lazily decided Python type (int or float); exponents -2..4; "
                               "factorial operands 0..5; grid " + grid_text() + " where a concrete value is required",
